@@ -173,7 +173,7 @@ def twin_args(r, by, rng):
     if by == "rot":
         return [rng.randrange(1, len(x["seq"])) for x in [r["vector"]] + r["modules"]]
     if by == "rc":
-        return [None] * n
+        return (["api"] * n) if rng.random() < 0.4 else ([None] * n)
     masks = ["1", "0", "01", "".join(rng.choice("01") for _ in range(17)), "0010"]
     return [rng.choice(masks) for _ in range(n)]
 
@@ -246,6 +246,25 @@ def fuzz_assemblies(run):
         if mode < 0.3:
             r["modules"].append(dict(r["modules"][0], id="again"))
         recipes.append(r)
+    # lower-case spellings around the duplicate scan: a palindromic start overhang, a reverse-complementary pair of starts
+    for espec, G in tc.geometries():
+        if G.ovh % 2 or rng.random() < (0.5 if q else 0.0):
+            continue
+        half = gen.rnd(G.ovh // 2, rng)
+        pal = half + dna.rc(half)
+        ov = G.overhangs(2, rng)
+        if pal in ov or dna.rc(ov[0]) == ov[1]:
+            continue
+        v = G.vector(pal, ov[1], gen.rnd(3, rng, G.safe), gen.rnd(5, rng, G.safe), rng)
+        m1 = G.module(pal, gen.rnd(4, rng, G.safe), ov[0], gen.rnd(3, rng, G.safe), rng)
+        m2 = G.module(ov[0], gen.rnd(5, rng, G.safe), ov[1], gen.rnd(2, rng, G.safe), rng)
+        m3 = G.module(dna.rc(ov[0]), gen.rnd(4, rng, G.safe), ov[1], gen.rnd(2, rng, G.safe), rng)
+        if v and m1 and m2:
+            mods = [{"id": "m1", "seq": m1.lower()}, {"id": "m2", "seq": m2.lower() if rng.random() < 0.5 else m2}]
+            recipes.append({"fn": "assemble", "enz": espec, "vector": {"id": "vec", "seq": v}, "modules": mods, "id": "p", "name": "p"})
+            if m3:
+                recipes.append({"fn": "assemble", "enz": espec, "vector": {"id": "vec", "seq": v},
+                                "modules": [mods[1], {"id": "m3", "seq": m3.lower()}, mods[0]], "id": "p", "name": "p"})
     # citations on inputs must not turn into internal errors either
     for r in real_family_cases(rng, 1 if q else 4, 2, annotate=True, refs=True):
         recipes.append(r)
